@@ -60,9 +60,14 @@ func raceOracle(cfg *vh.Config, res *vh.Result, rounds int, caseBase int) (int, 
 		res.Notes = append(res.Notes, "concurrent first-use rounds ran under the Go race detector (go build -race)")
 	}
 	start, calls := 0, 0
+	raceSeen := false // after the first report the remaining rounds run on, looking for wrong results and crashes
 	for attempt := 0; start < rounds && attempt < 20; attempt++ {
 		cmd := exec.Command(bin, "-seed", fmt.Sprint(cfg.Seed), "-start", fmt.Sprint(start), "-rounds", fmt.Sprint(rounds))
-		cmd.Env = append(os.Environ(), "GORACE=halt_on_error=1 history_size=2")
+		gorace := "GORACE=halt_on_error=1 history_size=2"
+		if raceSeen {
+			gorace = "GORACE=halt_on_error=0 history_size=1"
+		}
+		cmd.Env = append(os.Environ(), gorace)
 		var stderr bytes.Buffer
 		cmd.Stderr = &stderr
 		stdout, err := cmd.StdoutPipe()
@@ -89,11 +94,15 @@ func raceOracle(cfg *vh.Config, res *vh.Result, rounds int, caseBase int) (int, 
 				_ = json.Unmarshal(v, &f)
 				got, _ := json.Marshal(f["got"])
 				want, _ := json.Marshal(f["want"])
-				delete(f, "got")
-				delete(f, "want")
 				f["seed"] = cfg.Seed
 				res.Count("race:result-differs")
-				res.Fail(vh.Failure{Case: caseBase + last, Stream: "goroutines", Sig: "C10 concurrent first use: call result differs from the result of the call run alone",
+				sig := "C10 concurrent first use: call result differs from the result of the call run alone"
+				if g, ok := f["got"].(map[string]any); ok {
+					if _, p := g["panic"]; p {
+						sig = "C10 concurrent first use: call panics, unlike the call run alone"
+					}
+				}
+				res.Fail(vh.Failure{Case: caseBase + last, Stream: "goroutines", Sig: sig,
 					Clause: "each call returns the same result it returns when run alone", Input: f, Got: string(got), Want: string(want)})
 			}
 			if v, ok := m["end"]; ok {
@@ -108,12 +117,14 @@ func raceOracle(cfg *vh.Config, res *vh.Result, rounds int, caseBase int) (int, 
 		timedOut := !timer.Stop()
 		se := stderr.String()
 		in := map[string]any{"seed": cfg.Seed, "round": last, "how": "harness/cmd/run_conc/worker -seed S -start ROUND -rounds ROUND+1 (built with -race)"}
-		if strings.Contains(se, "WARNING: DATA RACE") {
-			// halt_on_error=1: the worker stops at the first report, in round [last]
+		if strings.Contains(se, "WARNING: DATA RACE") && !raceSeen {
+			// halt_on_error=1: the worker stopped at the first report, in round [last]; that round
+			// and the rest are run again without halting
+			raceSeen = true
 			res.Count("race:data-race-report")
 			res.Fail(vh.Failure{Case: caseBase + last, Stream: "goroutines", Sig: "C10 concurrent first use: race detector report",
 				Clause: "concurrent calls complete without data races", Input: in, Got: firstReport(se)})
-			start = last + 1
+			start = last
 			continue
 		}
 		switch {
